@@ -146,6 +146,8 @@ def returnInstance(cls, name):
     -------
     __norm_calc_type[name], instance of class
     """
-    if name not in __norm_calc_type:
+    # Anything that is not one of the known option names is unknown, also
+    # values that cannot be looked up at all (lists, dicts)
+    if not isinstance(name, str) or name not in __norm_calc_type:
         raise NotImplementedError("{} NOT IMPLEMENTED!!!!!\n".format(name))
     return __norm_calc_type[name]
